@@ -152,5 +152,9 @@ func sameElements(e1 *etree.Element, e2 *etree.Element) bool {
 	}
 	id1 := getAttrValue(e1, "id")
 	id2 := getAttrValue(e2, "id")
-	return id1 == id2
+	if id1 != id2 {
+		return false
+	}
+	// Descriptors are addressed by their schemeIdUri, so that is part of their identity
+	return getAttrValue(e1, "schemeIdUri") == getAttrValue(e2, "schemeIdUri")
 }
